@@ -426,6 +426,7 @@ func payStr(ps []*nom.AccountBlock) string {
 }
 
 func runC10(r *simrt.Run) {
+	r.WatchLocks() // a lock of the node that is never released is a violation, not a hang
 	t := r.T
 	mode := nomsim.SporksActive
 	if t.Choose(4) == 0 {
